@@ -1,9 +1,10 @@
 CONSTANTS
   Dev = {}
   Alphabet <- AlphaTok
-  MaxLen = 3
+  MaxLen = 5
+  Prune = FALSE
   DepthProbe = {0, 1, 2, 256}
 INIT Init
 NEXT Next
-INVARIANTS Inv_AcceptIffJson Inv_Value Inv_DepthScan Inv_SerRoundTrip Inv_IndexLaws
+INVARIANTS Inv_C13 Inv_DeadStaysDead
 CHECK_DEADLOCK FALSE
